@@ -131,5 +131,7 @@ pub fn scenario(role: Role, geo: (usize, u16, usize), seed: u64, handshake: bool
         pre_existing: false,
         fsize_limit: None,
         peer_leaves: false,
+        // the negotiated timeout is part of the domain (virtual time: a long one costs nothing); a pure function of the generated seed
+        timeout_s: [4u16, 4, 4, 1, 2, 5, 31, 255][((seed >> 7) % 8) as usize],
     }
 }
